@@ -837,6 +837,140 @@ Qed.
 End Subset.
 
 (* ------------------------------------------------------------------------------------------------ *)
+(** * Binary association records: how [from_records] hands the matrix of binary records to
+      [AssociationParameters::new] (src/saftvrmie/parameters.rs + eos/association.rs, src/association/mod.rs)
+
+    Every entry (i,j) of the n x n matrix that carries a cross-association value is applied, in row-major order, to the
+    site pair A_i-B_j (if component i has A sites and j has B sites) and to the site pair A_j-B_i (if i has B sites and j
+    has A sites); a later application overwrites an earlier one.  Site pairs that are never touched keep the combining rule. *)
+Section AssocOverride.
+Variable V : Type.
+
+Definition npair_eqb (p q : nat * nat) : bool := Nat.eqb (fst p) (fst q) && Nat.eqb (snd p) (snd q).
+
+Lemma npair_eqb_true : forall p q, npair_eqb p q = true <-> p = q.
+Proof.
+  intros [a b] [c d]. unfold npair_eqb. simpl. rewrite andb_true_iff, !Nat.eqb_eq.
+  split; [intros [-> ->]; reflexivity | intro H; inversion H; auto].
+Qed.
+
+(** state: the overrides applied so far, newest first, keyed by (component of the A site, component of the B site) *)
+Definition apply_rec (hasA hasB : nat -> bool) (acc : list ((nat * nat) * V)) (r : (nat * nat) * option V)
+  : list ((nat * nat) * V) :=
+  match snd r with
+  | None => acc
+  | Some v =>
+      let i := fst (fst r) in let j := snd (fst r) in
+      let acc1 := if hasA i && hasB j then ((i, j), v) :: acc else acc in
+      if hasB i && hasA j then ((j, i), v) :: acc1 else acc1
+  end.
+
+Definition overrides_of (hasA hasB : nat -> bool) (recs : list ((nat * nat) * option V)) : list ((nat * nat) * V) :=
+  fold_left (apply_rec hasA hasB) recs [].
+
+(** the value a site pair ends up with: [None] = combining rule *)
+Definition ov_get (acc : list ((nat * nat) * V)) (a b : nat) : option V :=
+  match find (fun e => npair_eqb (fst e) (a, b)) acc with Some e => Some (snd e) | None => None end.
+
+(** [binary_records.indexed_iter()]: row-major *)
+Definition matrix_recs (n : nat) (m : nat -> nat -> option V) : list ((nat * nat) * option V) :=
+  flat_map (fun i => map (fun j => ((i, j), m i j)) (seq 0 n)) (seq 0 n).
+
+Definition entries_ok (m : nat -> nat -> option V) (acc : list ((nat * nat) * V)) : Prop :=
+  forall a b v, In ((a, b), v) acc -> m a b = Some v.
+
+Lemma apply_rec_ok : forall hasA hasB m acc r, (forall i j, m i j = m j i) ->
+  snd r = m (fst (fst r)) (snd (fst r)) -> entries_ok m acc -> entries_ok m (apply_rec hasA hasB acc r).
+Proof.
+  intros hasA hasB m acc [[i j] ov] Hs Hr Hok. unfold apply_rec. simpl in *. destruct ov as [v|]; [|assumption].
+  assert (H1 : entries_ok m (if hasA i && hasB j then ((i, j), v) :: acc else acc)).
+  { destruct (hasA i && hasB j); [|assumption]. intros a b w [E|E]; [inversion E; subst; now symmetry | now apply Hok]. }
+  destruct (hasB i && hasA j); [|assumption].
+  intros a b w [E|E]; [inversion E; subst; rewrite Hs; now symmetry | now apply H1].
+Qed.
+
+Lemma fold_ok : forall hasA hasB m recs acc, (forall i j, m i j = m j i) ->
+  (forall r, In r recs -> snd r = m (fst (fst r)) (snd (fst r))) -> entries_ok m acc ->
+  entries_ok m (fold_left (apply_rec hasA hasB) recs acc).
+Proof.
+  intros hasA hasB m recs. induction recs as [|r recs IH]; intros acc Hs Hr Hok; simpl; [assumption|].
+  apply IH; auto. - intros r' Hin. apply Hr. now right. - apply apply_rec_ok; auto. apply Hr. now left.
+Qed.
+
+Lemma apply_rec_mono : forall hasA hasB acc r e, In e acc -> In e (apply_rec hasA hasB acc r).
+Proof.
+  intros hasA hasB acc [[i j] [v|]] e H; unfold apply_rec; simpl; [|assumption].
+  destruct (hasA i && hasB j); destruct (hasB i && hasA j); simpl; auto.
+Qed.
+
+Lemma fold_mono : forall hasA hasB recs acc e, In e acc -> In e (fold_left (apply_rec hasA hasB) recs acc).
+Proof.
+  intros hasA hasB recs. induction recs as [|r recs IH]; intros acc e H; simpl; [assumption|].
+  apply IH. now apply apply_rec_mono.
+Qed.
+
+Lemma fold_touches : forall hasA hasB recs acc i j v, In ((i, j), Some v) recs -> hasA i = true -> hasB j = true ->
+  In ((i, j), v) (fold_left (apply_rec hasA hasB) recs acc).
+Proof.
+  intros hasA hasB recs. induction recs as [|r recs IH]; intros acc i j v Hin HA HB; [contradiction|].
+  simpl. destruct Hin as [->|Hin]; [|now apply IH].
+  apply fold_mono. unfold apply_rec. simpl. rewrite HA, HB. simpl. destruct (hasB i && hasA j); simpl; auto.
+Qed.
+
+Lemma matrix_recs_In : forall n m i j, (i < n)%nat -> (j < n)%nat -> In ((i, j), m i j) (matrix_recs n m).
+Proof.
+  intros n m i j Hi Hj. unfold matrix_recs. apply in_flat_map. exists i. split; [apply in_seq; lia|].
+  apply in_map_iff. exists j. split; [reflexivity | apply in_seq; lia].
+Qed.
+
+Lemma matrix_recs_consistent : forall n m r, In r (matrix_recs n m) -> snd r = m (fst (fst r)) (snd (fst r)).
+Proof.
+  intros n m r H. unfold matrix_recs in H. apply in_flat_map in H. destruct H as [i [_ H]].
+  apply in_map_iff in H. destruct H as [j [<- _]]. reflexivity.
+Qed.
+
+(** For a symmetric matrix of binary records every site pair A_i-B_j ends up with exactly the cross-association value
+    of the record of the pair (i,j) — or keeps the combining rule when that record has none — whichever of the two
+    components comes first in the parameter set. *)
+Theorem assoc_override_matrix : forall hasA hasB n m i j, (forall i j, m i j = m j i) ->
+  (i < n)%nat -> (j < n)%nat -> hasA i = true -> hasB j = true ->
+  ov_get (overrides_of hasA hasB (matrix_recs n m)) i j = m i j.
+Proof.
+  intros hasA hasB n m i j Hs Hi Hj HA HB. unfold overrides_of.
+  assert (Hok : entries_ok m (fold_left (apply_rec hasA hasB) (matrix_recs n m) [])).
+  { apply fold_ok; auto. - apply matrix_recs_consistent. - intros a b v []. }
+  unfold ov_get. destruct (find _ _) as [[[a b] v]|] eqn:E.
+  - apply find_some in E. destruct E as [E1 E2]. simpl in E2. apply npair_eqb_true in E2. inversion E2; subst.
+    simpl. symmetry. now apply Hok.
+  - destruct (m i j) as [v|] eqn:Em; [|reflexivity]. exfalso.
+    assert (Hin : In ((i, j), v) (fold_left (apply_rec hasA hasB) (matrix_recs n m) [])).
+    { apply fold_touches; auto. rewrite <- Em. now apply matrix_recs_In. }
+    pose proof (find_none _ _ E _ Hin) as Hn. simpl in Hn.
+    assert (npair_eqb (i, j) (i, j) = true) by now apply npair_eqb_true. congruence.
+Qed.
+
+(** in particular the two site pairs of a pair of components get the same value: A_i-B_j and A_j-B_i *)
+Corollary assoc_override_sym : forall hasA hasB n m i j, (forall i j, m i j = m j i) ->
+  (i < n)%nat -> (j < n)%nat -> hasA i = true -> hasB j = true -> hasA j = true -> hasB i = true ->
+  ov_get (overrides_of hasA hasB (matrix_recs n m)) i j = ov_get (overrides_of hasA hasB (matrix_recs n m)) j i.
+Proof. intros. rewrite !assoc_override_matrix; auto. Qed.
+
+(** and the result does not depend on the order of the components: relabel them by any permutation [p] (inverse [q]) *)
+Corollary assoc_override_relabel : forall hasA hasB n m (p q : nat -> nat) i j, (forall i j, m i j = m j i) ->
+  (forall k, (k < n)%nat -> (p k < n)%nat) -> (forall k, q (p k) = k) ->
+  (i < n)%nat -> (j < n)%nat -> hasA i = true -> hasB j = true ->
+  ov_get (overrides_of (fun k => hasA (q k)) (fun k => hasB (q k)) (matrix_recs n (fun a b => m (q a) (q b)))) (p i) (p j)
+  = ov_get (overrides_of hasA hasB (matrix_recs n m)) i j.
+Proof.
+  intros hasA hasB n m p q i j Hs Hp Hq Hi Hj HA HB.
+  rewrite (assoc_override_matrix (fun k => hasA (q k)) (fun k => hasB (q k)) (n:=n) (fun a b => m (q a) (q b))); auto;
+    rewrite ?Hq; auto.
+  now rewrite assoc_override_matrix.
+Qed.
+
+End AssocOverride.
+
+(* ------------------------------------------------------------------------------------------------ *)
 (** * Non-vacuity *)
 
 Definition idc (c : N) : ident := mkId (Some c) None None None None None.
@@ -868,6 +1002,12 @@ Example ex_binary_inconsistent_file_asymmetric :
   let bin := [mkB (idc 1) (idc 2) 5%Z; mkB (idc 2) (idc 1) 7%Z] in
   blookup 0%Z Cas bin 1%N 2%N = 5%Z /\ blookup 0%Z Cas bin 2%N 1%N = 7%Z.
 Proof. split; reflexivity. Qed.
+
+Example ex_assoc_override :
+  let m := fun i j => if Nat.eqb i j then None else Some 7%Z in
+  let ov := overrides_of (fun _ => true) (fun _ => true) (matrix_recs 2 m) in
+  ov_get ov 0 1 = Some 7%Z /\ ov_get ov 1 0 = Some 7%Z /\ ov_get ov 0 0 = None.
+Proof. repeat split. Qed.
 
 Example ex_keys_unique_satisfiable : keys_unique Cas [mkP (idc 1) 1%N; mkP (idc 2) 2%N].
 Proof.
